@@ -40,6 +40,9 @@ pub struct NodeSpec {
     pub r: Vec<u32>,
     #[serde(default)]
     pub w: Vec<u32>,
+    /// "" : dynamic leaf (PLeaf); "r": static leaf with `Option<Read<OptA>>`; "w": `Option<Write<OptB>>`
+    #[serde(default)]
+    pub opt: String,
 }
 
 /// Table of nodes, ids 1.. in preorder, root = 1 (index = id - 1): the `node` of ParSeq.tla.
@@ -106,11 +109,13 @@ pub struct PInner {
 pub struct PCtx {
     pub m: Mutex<PInner>,
     pub cv: Condvar,
+    /// are the OPTIONAL static resources (OptA, OptB) in the world of the next dispatches?
+    pub opt_present: Mutex<(bool, bool)>,
 }
 
 impl PCtx {
     pub fn new() -> Arc<Self> {
-        Arc::new(PCtx { m: Mutex::new(PInner::default()), cv: Condvar::new() })
+        Arc::new(PCtx { m: Mutex::new(PInner::default()), cv: Condvar::new(), opt_present: Mutex::new((false, false)) })
     }
     pub fn ev(&self, v: Value) {
         self.m.lock().unwrap().log.push(v);
@@ -195,6 +200,27 @@ impl<'a> DynamicSystemData<'a> for PData<'a> {
     }
 }
 
+/// The body of every harness leaf: `fetch` is logged while the leaf holds all its guards, then the
+/// gate, then `work` (which returns the `finish` event), logged before the guards are released.
+pub fn gate_run(ctx: &Arc<PCtx>, id: usize, work: impl FnOnce() -> Value) {
+    let mut g = ctx.m.lock().unwrap();
+    // linearisation point: every guard is held
+    g.log.push(json!({"ev":"fetch","s":id}));
+    if g.gated {
+        g.waiting.push(id);
+        ctx.cv.notify_all();
+        while !g.released.remove(&id) {
+            g = ctx.cv.wait(g).unwrap();
+        }
+        g.waiting.retain(|x| *x != id);
+    }
+    let fin = work();
+    // still holding every guard
+    g.log.push(fin);
+    g.finished.insert(id);
+    ctx.cv.notify_all();
+}
+
 pub struct PLeaf {
     pub id: usize,
     pub acc: PAcc,
@@ -205,31 +231,18 @@ impl<'a> System<'a> for PLeaf {
     type SystemData = PData<'a>;
 
     fn run(&mut self, mut data: PData<'a>) {
-        let ctx = self.ctx.clone();
-        let mut g = ctx.m.lock().unwrap();
-        // linearisation point: every guard is held
-        g.log.push(json!({"ev":"fetch","s":self.id}));
-        if g.gated {
-            g.waiting.push(self.id);
-            ctx.cv.notify_all();
-            while !g.released.remove(&self.id) {
-                g = ctx.cv.wait(g).unwrap();
+        gate_run(&self.ctx.clone(), self.id, || {
+            let mut sum: u64 = 0;
+            for (i, f) in data.r.iter().enumerate() {
+                sum += (i as u64 + 1) * f.0 as u64;
             }
-            g.waiting.retain(|x| *x != self.id);
-        }
-        let mut sum: u64 = 0;
-        for (i, f) in data.r.iter().enumerate() {
-            sum += (i as u64 + 1) * f.0 as u64;
-        }
-        let mut nv = Vec::with_capacity(data.w.len());
-        for f in data.w.iter_mut() {
-            f.0 = ((31 * f.0 as u64 + 7 * self.id as u64 + sum + 1) % M) as u32;
-            nv.push(f.0);
-        }
-        // still holding every guard
-        g.log.push(json!({"ev":"finish","s":self.id,"nv":nv}));
-        g.finished.insert(self.id);
-        ctx.cv.notify_all();
+            let mut nv = Vec::with_capacity(data.w.len());
+            for f in data.w.iter_mut() {
+                f.0 = ((31 * f.0 as u64 + 7 * self.id as u64 + sum + 1) % M) as u32;
+                nv.push(f.0);
+            }
+            json!({"ev":"finish","s":self.id,"nv":nv})
+        });
     }
 
     fn accessor<'b>(&'b self) -> AccessorCow<'a, 'b, Self> {
@@ -239,6 +252,56 @@ impl<'a> System<'a> for PLeaf {
     fn setup(&mut self, world: &mut World) {
         self.ctx.ev(json!({"ev":"setup","s":self.id}));
         <PData as DynamicSystemData>::setup(&self.acc, world)
+    }
+}
+
+// ---------------------------------------------------------------- static leaves with OPTIONAL data
+
+/// Abstract resource numbers of the two static resource types below (in `r` / `w` of a NodeSpec).
+pub const RES_OPT_A: u32 = 201;
+pub const RES_OPT_B: u32 = 202;
+#[derive(Default, Debug)]
+pub struct OptA(pub u32);
+#[derive(Default, Debug)]
+pub struct OptB(pub u32);
+
+/// `Option<Read<OptA>>`: declares OptA as read, tolerates its absence, `setup` inserts nothing.
+pub struct OLeafR {
+    pub id: usize,
+    pub ctx: Arc<PCtx>,
+}
+impl<'a> System<'a> for OLeafR {
+    type SystemData = Option<shred::Read<'a, OptA>>;
+    fn run(&mut self, data: Self::SystemData) {
+        gate_run(&self.ctx.clone(), self.id, || json!({"ev":"finish","s":self.id,"nv":[],"seen": if data.is_some() {"some"} else {"none"}}));
+    }
+    fn setup(&mut self, world: &mut World) {
+        self.ctx.ev(json!({"ev":"setup","s":self.id}));
+        <Self::SystemData as shred::SystemData>::setup(world)
+    }
+}
+/// `Option<Write<OptB>>`
+pub struct OLeafW {
+    pub id: usize,
+    pub ctx: Arc<PCtx>,
+}
+impl<'a> System<'a> for OLeafW {
+    type SystemData = Option<shred::Write<'a, OptB>>;
+    fn run(&mut self, mut data: Self::SystemData) {
+        gate_run(&self.ctx.clone(), self.id, || {
+            let seen = match data.as_mut() {
+                Some(b) => {
+                    b.0 = (31 * b.0 + 7 * self.id as u32 + 1) % 1_000_003;
+                    "some"
+                }
+                None => "none",
+            };
+            json!({"ev":"finish","s":self.id,"nv":[],"seen":seen})
+        });
+    }
+    fn setup(&mut self, world: &mut World) {
+        self.ctx.ev(json!({"ev":"setup","s":self.id}));
+        <Self::SystemData as shred::SystemData>::setup(world)
     }
 }
 
@@ -291,7 +354,15 @@ pub fn node_acc(n: &DynNode) -> (Vec<u32>, Vec<u32>) {
     // ResourceId -> abstract resource number (the dynamic id of the PSlot cell)
     let back = |v: Vec<ResourceId>| -> Vec<u32> {
         v.into_iter()
-            .map(|id| (1..=256u32).find(|x| rid(*x) == id).unwrap_or(0))
+            .map(|id| {
+                if id == ResourceId::new::<OptA>() {
+                    RES_OPT_A
+                } else if id == ResourceId::new::<OptB>() {
+                    RES_OPT_B
+                } else {
+                    (1..=200u32).find(|x| rid(*x) == id).unwrap_or(0)
+                }
+            })
             .collect()
     };
     (back(r), back(w))
@@ -363,7 +434,11 @@ pub fn mk_leaf(spec: &TreeSpec, n: usize, ctx: &Arc<PCtx>) -> PLeaf {
 pub fn build_tree(spec: &TreeSpec, n: usize, ctx: &Arc<PCtx>, evs: &mut Vec<Value>, log_acc: bool) -> Option<DynNode> {
     let nd = spec.node(n);
     let node = if nd.kind == "leaf" {
-        DynNode(Box::new(mk_leaf(spec, n, ctx)))
+        match nd.opt.as_str() {
+            "r" => DynNode(Box::new(OLeafR { id: n, ctx: ctx.clone() })),
+            "w" => DynNode(Box::new(OLeafW { id: n, ctx: ctx.clone() })),
+            _ => DynNode(Box::new(mk_leaf(spec, n, ctx))),
+        }
     } else {
         // `par![a, b]` evaluates a, Par::new(a), then b, .with(b): children left to right
         // (building all children first does not change which `with` calls happen or their arguments)
@@ -576,6 +651,8 @@ pub struct GenCfg {
     pub max_leaves: usize,
     pub n_res: u32,
     pub p_conflict: f64,
+    /// probability that a leaf becomes a static leaf with Option<Read<OptA>> data
+    pub p_opt: f64,
 }
 
 /// Random shape (preorder table) with at most `max_leaves` leaves.
@@ -585,11 +662,11 @@ pub fn gen_shape(rng: &mut StdRng, cfg: &GenCfg) -> TreeSpec {
         let leaf = depth == cfg.max_depth || *budget <= 1 || rng.gen_bool(if depth == 0 { 0.03 } else { 0.3 });
         if leaf {
             *budget = budget.saturating_sub(1);
-            out.push(NodeSpec { kind: "leaf".into(), kids: vec![], r: vec![], w: vec![] });
+            out.push(NodeSpec { kind: "leaf".into(), kids: vec![], r: vec![], w: vec![], opt: String::new() });
             return id;
         }
         let kind = if rng.gen_bool(0.55) { "par" } else { "seq" };
-        out.push(NodeSpec { kind: kind.into(), kids: vec![], r: vec![], w: vec![] });
+        out.push(NodeSpec { kind: kind.into(), kids: vec![], r: vec![], w: vec![], opt: String::new() });
         let fan = if rng.gen_bool(0.08) { 1 } else { rng.gen_range(2..=cfg.max_fan) };
         let mut kids = Vec::new();
         for i in 0..fan {
@@ -654,9 +731,29 @@ pub fn assign_access(rng: &mut StdRng, spec: &mut TreeSpec, cfg: &GenCfg) {
     }
     let all: Vec<u32> = (1..=cfg.n_res).collect();
     go(rng, spec, 1, all, vec![]);
-    if rng.gen_bool(cfg.p_conflict) {
+    if cfg.p_opt > 0.0 {
         let ls = spec.leaves();
-        let l = *ls.choose(rng).unwrap();
+        for l in &ls {
+            if rng.gen_bool(cfg.p_opt) {
+                spec.0[l - 1].opt = "r".into();
+                spec.0[l - 1].r = vec![RES_OPT_A];
+                spec.0[l - 1].w = vec![];
+            }
+        }
+        // Option<Write<OptB>>: mostly one per tree (two under a par node conflict -- which is modelled)
+        for _ in 0..(if rng.gen_bool(0.15) { 2 } else { 1 }) {
+            if rng.gen_bool(cfg.p_opt * 2.0) {
+                let l = *ls.choose(rng).unwrap();
+                spec.0[l - 1].opt = "w".into();
+                spec.0[l - 1].r = vec![];
+                spec.0[l - 1].w = vec![RES_OPT_B];
+            }
+        }
+    }
+    if rng.gen_bool(cfg.p_conflict) {
+        // (only dynamic leaves can be given an extra declaration)
+        let ls: Vec<usize> = spec.leaves().into_iter().filter(|l| spec.node(*l).opt.is_empty()).collect();
+        let Some(&l) = ls.choose(rng) else { return };
         let x = rng.gen_range(1..=cfg.n_res);
         if rng.gen_bool(0.6) {
             spec.0[l - 1].w.push(x);
